@@ -220,6 +220,7 @@ def r4(ctx):
 
 
 def run(ctx):
+    scan_rule(ctx, "C14")
     r4(ctx)
     r1(ctx)
     r2(ctx)
